@@ -186,6 +186,24 @@ def run(ck: Check):
                             "error_windows": [{"from": 0.0, "to": dur, "code": code, "partition": 0}],
                             "resolve_within": 30})
                 k += 1
+    # leader migration while a batch is in flight / in its retry backoff, with a later send to the same
+    # partition inside that window (the partition must stay muted until the retry is re-enqueued)
+    for idem in (False, True):
+        for m in (0.05, 0.08) if not ck.thorough else (0.03, 0.05, 0.065, 0.08, 0.12):
+            for d0 in (-0.0005, -0.002):    # just after the migration: client metadata still names the old leader
+                for d1 in (0.01, 0.03, 0.06):
+                    scs.append({"id": k, "seed": k, "brokers": 2, "partitions": 1, "ts_type": 0, "idempotent": idem,
+                                "acks": 1 if not idem else "all", "linger_ms": 0, "max_batch_size": 16384,
+                                "compression": None, "request_timeout_ms": 2000, "retry_backoff_ms": 100,
+                                "latency": [0.001, 0.002],
+                                # a first record before the migration so that the topic's metadata is cached
+                                "tasks": [[{"rid": 0, "p": 0, "sleep": 0.0},
+                                           {"rid": 1, "p": 0, "sleep": round(m - d0, 6)},
+                                           {"rid": 2, "p": 0, "sleep": round(d0 + d1, 6)},
+                                           {"rid": 3, "p": 0, "sleep": 0.2}]],
+                                "faults": {}, "leaderless": [],
+                                "migrations": [{"at": m, "partition": 0, "to": 1}], "resolve_within": 30})
+                    k += 1
     results = prodsim.run_scenarios(scs, timeout=ck.n(600, 2400))
     traces = []
     hist = {"faults": {}, "idempotent": 0, "nonidempotent": 0, "retries": 0, "duplicates": 0, "failed_runs": 0}
